@@ -145,7 +145,7 @@ func (x *Explorer) enter(fr *frame, from, b *ssa.BasicBlock) {
 		newPhi = append(newPhi, t)
 	}
 	if general && x.Opts.LoopInvariants && lm != nil {
-		x.seedLoopInvariants(fr, b, lm, newPhi)
+		x.seedLoopInvariants(fr, b, lm, newPhi, from)
 	}
 	if general && lm != nil && from != nil {
 		x.seedStrideInvariants(fr, b, lm, from, newPhi)
@@ -582,8 +582,8 @@ func (x *Explorer) loadArray(addr *Term, at *types.Array, typ types.Type) *Term 
 // for phi = φ(c0 from outside, phi + k from inside, k > 0): phi >= c0; and if
 // the head (or the block computing phi+1 for range loops) tests phi' < T with
 // T not modified in the loop: phi <= T (resp. phi+1 <= T), provided c0 <= T.
-func (x *Explorer) seedLoopInvariants(fr *frame, b *ssa.BasicBlock, lm *loopMod, newPhi []*Term) {
-	x.seedPairInvariants(fr, b, lm, newPhi)
+func (x *Explorer) seedLoopInvariants(fr *frame, b *ssa.BasicBlock, lm *loopMod, newPhi []*Term, from *ssa.BasicBlock) {
+	x.seedPairInvariants(fr, b, lm, newPhi, from)
 	for k, t := range newPhi {
 		phi := b.Instrs[k].(*ssa.Phi)
 		if bt, ok := phi.Type().Underlying().(*types.Basic); !ok || bt.Info()&types.IsInteger == 0 {
@@ -780,7 +780,7 @@ func stepOf(e ssa.Value, phi *ssa.Phi, depth int, seen map[ssa.Value]bool) (lo, 
 // on every back edge a advances at least as much as b ever does, (a - b) never
 // decreases; if b0 + 1 <= a0 (resp. b0 <= a0) holds at entry the fact b < a
 // (resp. b <= a) is invariant.
-func (x *Explorer) seedPairInvariants(fr *frame, blk *ssa.BasicBlock, lm *loopMod, newPhi []*Term) {
+func (x *Explorer) seedPairInvariants(fr *frame, blk *ssa.BasicBlock, lm *loopMod, newPhi []*Term, from *ssa.BasicBlock) {
 	type ctr struct {
 		phi    *ssa.Phi
 		t      *Term
@@ -816,6 +816,15 @@ func (x *Explorer) seedPairInvariants(fr *frame, blk *ssa.BasicBlock, lm *loopMo
 			first = false
 		}
 		if good && nOut == 1 && !first {
+			// generalising on arrival over a back edge (the first iterations were
+			// peeled): the base case is the state that arrives, not the entry state
+			if from != nil && lm.body[from] {
+				for i, p := range blk.Preds {
+					if p == from {
+						c.init = x.eval(fr, phi.Edges[i])
+					}
+				}
+			}
 			cs = append(cs, c)
 		}
 	}
